@@ -523,7 +523,7 @@ int fff_blas_dsyrk (CBLAS_UPLO_t Uplo, CBLAS_TRANSPOSE_t Trans,
   char* uplo = SWAP_UPLO(Uplo);
   char* trans = SWAP_TRANS(Trans);
   int n = C->size1;
-  int k = (Trans == CblasNoTrans) ? (int)A->size1 : (int)A->size2;
+  int k = (Trans == CblasNoTrans) ? (int)A->size2 : (int)A->size1;
   int lda = (int) A->tda;
   int ldc = (int) C->tda;
 
@@ -549,7 +549,7 @@ int fff_blas_dsyr2k (CBLAS_UPLO_t Uplo, CBLAS_TRANSPOSE_t Trans,
   char* uplo = SWAP_UPLO(Uplo);
   char* trans = SWAP_TRANS(Trans);
   int n = C->size1;
-  int k = (Trans == CblasNoTrans) ? (int)B->size1 : (int)B->size2;
+  int k = (Trans == CblasNoTrans) ? (int)B->size2 : (int)B->size1;
   int lda = (int) A->tda;
   int ldb = (int) B->tda;
   int ldc = (int) C->tda;
